@@ -389,9 +389,10 @@ enum {
   F_NONE = 0,
   F_DROP, F_DUP, F_SWAP, F_TS_CC, F_TS_TEI, F_TS_SCR, F_TS_PUSI, F_TS_AFC, F_TS_TRUNC, F_TS_PID,
   F_PES_TRUNC, F_PES_LENGTH, F_PES_HEADER, F_DU_ILLEGAL, F_BITFLIP_DU, F_BITFLIP_ANY, F_GARBAGE_SAFE, F_GARBAGE_ANY, F_FOREIGN,
+  F_DU_FLOOD,  // (appended: replay files store kind numbers)
   F_N
 };
-static bool fault_is_pes_level(int k) { return k == F_PES_LENGTH || k == F_PES_HEADER || k == F_DU_ILLEGAL || k == F_BITFLIP_DU; }
+static bool fault_is_pes_level(int k) { return k == F_PES_LENGTH || k == F_PES_HEADER || k == F_DU_ILLEGAL || k == F_BITFLIP_DU || k == F_DU_FLOOD; }
 static bool fault_unsafe(int k) { return k == F_BITFLIP_ANY || k == F_GARBAGE_ANY; }
 
 struct Fault { int kind; int64_t frame, pkt, tsi, x, y; bool fired = false; };
@@ -511,6 +512,17 @@ struct C07 : World {
       for (int i = 0; i < nf; i++) {
         Op o; o.task = 3; o.kind = "fault";
         o.a = {kinds[r.below(kinds.size())], (int64_t)r.below(64), (int64_t)r.below(4), (int64_t)r.below(64), (int64_t)r.below(100000), (int64_t)r.below(100000)};
+        p.ops.push_back(o);
+      }
+    }
+    if (faulty && !enumerate && !random_stream && r.chance(1, 10)) {
+      // directed: one frame in a single fixed-unit-size PES packet with 17-30 x 184 bytes of stuffing, flooded (F_DU_FLOOD)
+      std::vector<size_t> fr; for (size_t i = 0; i < p.ops.size(); i++) if (p.ops[i].kind == "frame") fr.push_back(i);
+      if (fr.size() > 3) {
+        size_t fi = (size_t)r.below(fr.size() - 2);
+        p.ops[fr[fi]].a[2] = 1; p.ops[fr[fi]].a[3] = 17 + (int64_t)r.below(14);
+        p.knobs["di"] = 2 * (int64_t)r.below(4);
+        Op o; o.task = 3; o.kind = "fault"; o.a = {F_DU_FLOOD, (int64_t)fi, 0, 0, (int64_t)r.below(100000), (int64_t)r.below(100000)};
         p.ops.push_back(o);
       }
     }
@@ -647,6 +659,26 @@ struct C07 : World {
         int flips = 1 + (int)(f.y % 3);
         for (int i = 0; i < flips; i++) b[from + (size_t)((f.y / 3 + i * 17) % (int64_t)n)] ^= (char)(1 << ((f.y / 7 + i) % 8));
         ctx.count("fault_bitflip_du");
+        return true;
+      }
+      case F_DU_FLOOD: {
+        // illegal data units: every 46 byte stuffing unit of the packet becomes a Teletext unit with line_offset 0
+        // ("line unknown", exempt from the ascending line rule) - with enough stuffing the packet carries more lines
+        // than any video frame has (and than a receiver's frame buffer holds)
+        int made = 0, lines = (int)ld.size();
+        uint32_t z = (uint32_t)(f.y * 2654435761u + 12345u);
+        bool second_field = false;   // the new units stay in the field of the numbered line in front of them (fields must not go backwards)
+        for (auto& d : vp.dus) {
+          if (d.line >= 0) { second_field = !((unsigned char)b[d.off + 2] & 0x20); continue; }
+          if (d.len != 46 || (unsigned char)b[d.off] != 0xFF || (unsigned char)b[d.off + 1] != 0x2C) continue;
+          if (f.x % 4 == 3 && made >= 40) break;   // sometimes a large but legal number
+          b[d.off] = (char)0x02; b[d.off + 2] = (char)(0xC0 | (second_field ? 0 : 0x20)); b[d.off + 3] = (char)0xE4;
+          for (size_t i = 4; i < 46; i++) { z = z * 1664525u + 1013904223u; unsigned c = (z >> 24) & 0xFF; if (c == 0x00 || c == 0x01 || c == 0x47) c = 0x55; b[d.off + i] = (char)c; }
+          made++;
+        }
+        if (!made) return false;
+        ctx.count("fault_du_flood");
+        if (lines + made > 64) ctx.count("fault_du_flood_more_than_64_lines");
         return true;
       }
       default: return false;
